@@ -8,7 +8,7 @@ Next == /\ l <= Len(Trace)
         /\ LET v == Judge(Trace[l]) IN
            /\ bad' = IF v \in {"ok", "outside-model"} \/ Len(bad) >= 40 THEN bad ELSE Append(bad, <<v, l>>)
            /\ tally' = [ok |-> tally.ok + (IF v = "ok" THEN 1 ELSE 0), outside |-> tally.outside + (IF v = "outside-model" THEN 1 ELSE 0),
-                        chunks |-> tally.chunks + (IF Trace[l].ev = "chunk" THEN 1 ELSE 0)]   \* (word totals exceed TLC's 32-bit integers: summed outside)
+                        chunks |-> tally.chunks + (IF Trace[l].ev \in {"chunk", "dchunk"} THEN 1 ELSE 0)]   \* (word totals exceed TLC's 32-bit integers: summed outside)
         /\ l' = l + 1
 Spec == Init /\ [][Next]_<<l, bad, tally>>
 Done == (l = Len(Trace) + 1) => PrintT(ToJson([summary |-> TRUE, tally |-> tally, bad |-> bad]))
